@@ -41,6 +41,12 @@ func (a Action) String() string {
 			k = 2 + a.C
 		}
 		return "X:" + strconv.FormatInt(k, 10) + ":" + strings.Join(p, ",")
+	case "ERR":
+		k := int64(0)
+		if a.C != 0 {
+			k = 2 + a.C
+		}
+		return "ERR:" + strconv.FormatInt(k, 10)
 	case "CT", "CTL", "z":
 		return a.Op + ":" + strconv.FormatInt(a.C, 10)
 	}
@@ -149,6 +155,14 @@ func (e *Env) apply(a Action) {
 		}
 		w.mu.Unlock()
 		e.Affected(a.C, p, 0)
+	case "ERR": // the next difference request of the sequence fails with a transient RPC error
+		w.mu.Lock()
+		if a.C == 0 {
+			w.FailNext["pts"] = true
+		} else {
+			w.FailNext["c"+strconv.FormatInt(a.C, 10)] = true
+		}
+		w.mu.Unlock()
 	case "X": // the next (channel C / common) difference answer forwards these entries too
 		w.mu.Lock()
 		seq := "pts"
